@@ -107,6 +107,27 @@ def crash_func(res):
     return w.split("@")[0] if w else ""
 
 
+def is_harness_crash(res):
+    """sanitizer report whose faulting location is in the harness, not in /repo/src"""
+    if res.get("crash") != "sanitizer":
+        return False
+    log_ = res.get("log", "")
+    for line in log_.split("\n"):
+        if "runtime error:" in line:
+            loc = line.split(": runtime error:")[0]
+            return "/src/" not in loc
+        if line.lstrip().startswith("#0 "):
+            # ASan: first frame that is not an interceptor decides
+            continue
+    frames = [l for l in log_.split("\n") if l.lstrip().startswith("#")]
+    for l in frames[:4]:
+        if "/repo/src/" in l or "/src/" in l and "/verif/" not in l:
+            return False
+        if "/verif/sim/" in l:
+            return True
+    return False
+
+
 def classes_of(res, pid, spec):
     """violation classes of property pid present in one result"""
     cl = []
@@ -120,6 +141,8 @@ def classes_of(res, pid, spec):
             prop = "C05"
         elif task.startswith("c") and task[1:].isdigit():
             prop = "C06"
+        if is_harness_crash(res):
+            prop = None
         if prop == pid:
             cl.append(("crash", res["crash"] + ":" + res.get("what", "").split(" ")[0][:40], crash_func(res)))
     return cl
@@ -333,7 +356,7 @@ def main():
             if "crash" in res and not classes_of(res, pid, spec):
                 k = "crash/%s/%s/%s" % (res.get("task"), res.get("what", "")[:40], crash_func(res))
                 notes[k] = notes.get(k, 0) + 1
-                if res.get("task", "") == "" and res["crash"] != "hang":
+                if (res.get("task", "") == "" and res["crash"] != "hang") or is_harness_crash(res):
                     errors.append({"error": "crash outside any simulated task", "seed": res.get("seed"), "what": res.get("what"), "log": res.get("log", "")[:600]})
         jobs_done.append({"scenario": job["scen"], "sets": job.get("sets", {}), "runs": nj, "wall_s": round(time.time() - tj, 1)})
 
